@@ -453,8 +453,12 @@ impl cob::store::Cob for Thread {
     ) -> Result<(), Error> {
         let identity = op.identity.ok_or(Error::MissingIdentity)?;
         let concurrent = concurrent.into_iter().collect::<Vec<_>>();
+        // N.b. the actions are applied to a copy, so that an operation that is rejected
+        // doesn't leave a timeline entry or the effects of its first actions behind.
+        let mut next = self.clone();
+
         for action in op.actions {
-            self.action(
+            next.action(
                 action,
                 op.id,
                 op.author,
@@ -464,6 +468,8 @@ impl cob::store::Cob for Thread {
                 repo,
             )?;
         }
+        *self = next;
+
         Ok(())
     }
 }
